@@ -862,6 +862,11 @@ def _base_parser(tokens, context, context_type, section, natoms=None, delete=Fal
     if natoms is not None and len(atoms) != natoms:
         raise IOError('Found {} atoms while {} were expected.'
                       .format(len(atoms), natoms))
+    if '--' in tokens:
+        # The delimiter ends the atoms; it is still there, so there are more
+        # atoms before it than the interaction takes.
+        raise IOError('Found more than the {} expected atoms before the "--" delimiter.'
+                      .format(natoms))
 
     # Normalize the atom references.
     # Blocks and links treat these references differently.
